@@ -143,6 +143,27 @@ class OSet(collections.abc.MutableSet):
         return "OSet(%r)" % (list(self._d),)
 
 
+class OEmptyableSet(OSet):
+    """insertion-ordered stand-in for wormhole.observer.EmptyableSet (same API)"""
+
+    def __init__(self, *args, **kwargs):
+        self._eq = kwargs.pop("_eventual_queue")
+        OSet.__init__(self, *args)
+        self._observer = None
+
+    def when_next_empty(self):
+        from wormhole.observer import OneShotObserver
+        if not self._observer:
+            self._observer = OneShotObserver(self._eq)
+        return self._observer.when_fired()
+
+    def discard(self, o):
+        OSet.discard(self, o)
+        if self._observer and not len(self):
+            self._observer.fire(None)
+            self._observer = None
+
+
 _logged = []
 
 
